@@ -326,7 +326,7 @@ fn drive(cfgv: &Value, wc: WorldCfg, out: &mut impl Write) {
                     }
                 }
             }
-            writeln!(out, "{}", json!({"a": "FairEnd", "rounds": fair_rounds, "clock": run.world.now_ticks()})).unwrap();
+            writeln!(out, "{}", json!({"a": "FairEnd", "n": "", "rounds": fair_rounds, "clock": run.world.now_ticks()})).unwrap();
         }
     }
 }
@@ -470,7 +470,11 @@ fn fuzz(cfgv: &Value, wc: WorldCfg, out: &mut impl Write) {
                     }
                     let msg = if rng.random_bool(0.6) { vharness::codec::WMsg::Ack { ops } } else {
                         let x = members.choose(&mut rng).unwrap().clone();
-                        vharness::codec::WMsg::SynAck { digest: vec![vharness::codec::WNodeDigest { id: vharness::world::wid(&x), hb: rng.random_range(0..50), gc: rng.random_range(0..4), max: rng.random_range(0..6) }], ops }
+                        // digest entries may name anybody (the victim included) with any heartbeat / frontier
+                        let extreme = |rng: &mut StdRng| -> u64 { match rng.random_range(0..6) { 0 => u64::MAX, 1 => u64::MAX - 1, 2 => 0, 3 => 1u64 << 63, _ => rng.random_range(0..50) } };
+                        let mut digest = vec![vharness::codec::WNodeDigest { id: vharness::world::wid(&x), hb: extreme(&mut rng), gc: rng.random_range(0..4), max: rng.random_range(0..6) }];
+                        if rng.random_bool(0.5) { digest.push(vharness::codec::WNodeDigest { id: vharness::world::wid(&n), hb: extreme(&mut rng), gc: extreme(&mut rng), max: extreme(&mut rng) }); }
+                        if rng.random_bool(0.5) { vharness::codec::WMsg::SynAck { digest, ops } } else { vharness::codec::WMsg::Syn { cluster: "c".into(), digest } }
                     };
                     b = vharness::codec::encode_default(&msg);
                 }
